@@ -199,6 +199,54 @@ def mk_clean_pair(rnd):
     return {'lines': lines, 'tags': {'family': 'modattr-clean-pair'}}
 
 
+def mk_history(rnd):
+    """the shape C14_history_reload is about: modifies on pairwise incomparable paths whose configured value is no
+    dictionary, dump (+ restart) points in between, then restore-all and a last dump that must replay to nothing"""
+    vars0 = gen_dict(rnd, 3, n=rnd.choice((2, 3, 4)), strs=[x for x in STRS if '\n' not in x])
+    leaf, dicts = [], []
+    leaf_paths(rnd, parse(vars0), 'vars', leaf, dicts)
+    cands = list(leaf) + ['vars.fresh', (rnd.choice(dicts) if dicts else 'vars') + '.fresh2.er', 'check_interval', 'notes']
+    rnd.shuffle(cands)
+    paths = []
+    for c in cands:                              # pairwise incomparable
+        t = c.split('.')
+        if all(t[:len(u)] != u and u[:len(t)] != t for u in (x.split('.') for x in paths)):
+            paths.append(c)
+    paths = paths[:rnd.randint(1, 4)]
+    lines = ['now %d' % T0, 'ps_mnew vars=%s notes=%s ci=%s' % (vars0, hx(rnd.choice(['n0', 'note "x"'])), rnd.choice(['300', '60']))]
+    t = T0
+    strs = [x for x in STRS if '\n' not in x]
+
+    def scalar(p):
+        if p == 'check_interval': return 'D' + rnd.choice(POSNUMS)
+        if p == 'notes': return 'S' + hx(rnd.choice(strs))
+        c = rnd.random()
+        if c < 0.4: return 'D' + rnd.choice(NUMS)
+        if c < 0.7: return 'S' + hx(rnd.choice(strs))
+        if c < 0.85: return 'A(' + ','.join('D' + rnd.choice(NUMS) for _ in range(rnd.randint(0, 3))) + ')'
+        return rnd.choice(['T', 'F', 'N'])
+    live = set()
+    for rounds in range(rnd.randint(1, 3)):
+        for i in range(rnd.randint(1, 4)):
+            t += 1
+            p = rnd.choice(paths)
+            lines.append('now %d' % t)
+            if rnd.random() < 0.75:
+                lines.append('ps_mod path=%s val=%s' % (hx(p), scalar(p)))
+                live.add(p)
+            else:
+                lines.append('ps_res path=%s' % hx(p))
+                live.discard(p)
+        lines.append('ps_dma')                   # dump + restart between modify and restore-all
+    order = list(paths)
+    rnd.shuffle(order)
+    for p in order:
+        t += 1
+        lines += ['now %d' % t, 'ps_res path=%s' % hx(p)]
+    lines.append('ps_dma')                       # everything restored: the file must replay to nothing
+    return {'lines': lines, 'tags': {'family': 'dma-history'}}
+
+
 def mk_special(rnd):
     out = []
     S = lambda fam, *ls: out.append({'lines': ['now %d' % T0] + list(ls), 'tags': {'family': fam}})
@@ -263,13 +311,17 @@ def mk_atomic(rnd, tier):
     out = []
     for what in ('state', 'modattr', 'objcfg'):
         out.append({'lines': ['ps_atomic what=%s' % what], 'tags': {'family': 'atomic-trace'}})
-    calls = {'openat': 12, 'write': 6, 'fsync': 2, 'close': 12, 'rename': 2, 'chmod': 2}
-    allk = [(w, c, n) for w in ('state', 'modattr', 'objcfg') for c, mx in calls.items() for n in range(1, mx + 1)]
+    # every system call name that occurs between the start and the end of the three persisting writes (strace census,
+    # see notes/C14.md), with n up to more than the observed count per window: every syscall boundary is a kill point
+    calls = {'openat': 6, 'newfstatat': 14, 'getdents64': 3, 'close': 6, 'chmod': 2, 'write': 3, 'fsync': 2, 'rename': 2,
+             'statx': 2, 'read': 6, 'mkdir': 2, 'futex': 40, 'rt_sigprocmask': 3, 'clone3': 2, 'lseek': 2}
+    allk = [(w, c, n) for w in ('state', 'modattr', 'objcfg') for c, mx in calls.items() for n in range(1, mx + 1)
+            if not (c == 'futex' and w != 'objcfg' and n > 4)]
     if tier == 'thorough':
         pick = allk
     else:
         must = [(w, c, 1) for w in ('state', 'modattr', 'objcfg') for c in ('write', 'rename')]
-        rest = [k for k in allk if k not in must]
+        rest = [k for k in allk if k not in must and k[1] in ('openat', 'close', 'chmod', 'fsync', 'getdents64', 'newfstatat') and k[2] <= 2]
         pick = must + rnd.sample(rest, 6 if tier == 'quick' else 12)
     for w, c, n in pick:
         out.append({'lines': ['ps_kill what=%s call=%s n=%d' % (w, c, n)], 'tags': {'family': 'atomic-kill'}})
@@ -285,6 +337,7 @@ def generate(seed, tier):
     for i in range(500 * k): cases.append(mk_mod_case(rnd, 'modattr-random'))
     for i in range(150 * k): cases.append(mk_mod_case(rnd, 'dma-random', dma=True, clean_only=True))
     for i in range(30 * k): cases.append(mk_mod_case(rnd, 'dma-seven-decimals', dma=True, nums=NUMS + NUMS7, clean_only=True))
+    for i in range(150 * k): cases.append(mk_history(rnd))
     for i in range(300 * k): cases.append(mk_state_case(rnd, False))
     for i in range(80 * k): cases.append(mk_state_case(rnd, True))
     if tier != 'search':
